@@ -45,6 +45,43 @@ pub fn iso_points<S: Suite>(ctx: &Ctx, n: usize, mk: &(dyn Fn(u64) -> S::K + Syn
     out
 }
 
+/// Points at which an INTERMEDIATE value of the polynomial evaluation vanishes.  The maps are evaluated by Horner's rule from
+/// the leading coefficient down, so the accumulator after j steps is Z^(2j) T_j(x) with T_j the leading truncation of degree j
+/// of the coefficient table; it is zero exactly at the roots of T_j.  All rational roots of all proper truncations of the four
+/// tables are computed (polynomial gcd with x^N - x and equal-degree splitting) and lifted to the isogenous curve where
+/// possible: the complete set of inputs on which some partial sum is zero.
+pub fn horner_zero_points<S: Suite>(ctx: &Ctx, field_size: &BigUint, rand: &(dyn Fn(&mut crate::infra::SplitMix) -> S::K + Sync)) -> Vec<Pt<S::K>> {
+    let tables = S::lib_iso();
+    let c = S::iso_curve();
+    let mut polys: Vec<Vec<S::K>> = vec![];
+    for t in &tables {
+        let n = t.len() - 1;
+        for j in 1..n {
+            polys.push(t[n - j..=n].to_vec());
+        }
+    }
+    let seed0 = ctx.rng(&format!("c16.horner.{}", S::NAME)).next();
+    let roots: Vec<Vec<S::K>> = par_map(polys.len(), |i| {
+        let mut r = crate::infra::SplitMix(seed0 ^ (i as u64).wrapping_mul(0x9E3779B97F4A7C15));
+        crate::polyroots::roots(&polys[i], field_size, &mut || rand(&mut r))
+    });
+    let mut out = vec![];
+    let mut seen = std::collections::HashSet::new();
+    let mut nroots = 0;
+    for x in roots.into_iter().flatten() {
+        nroots += 1;
+        if let Some(y) = S::sqrt(&c.rhs(&x)) {
+            for p in [Pt::Aff(x.clone(), y.clone()), Pt::Aff(x.clone(), y.neg())] {
+                if seen.insert(p.clone()) {
+                    out.push(p);
+                }
+            }
+        }
+    }
+    ctx.extra(&format!("{}: rational roots of the leading truncations of the isogeny tables / points over them", S::NAME), json!([nroots, out.len()]));
+    out
+}
+
 fn iso_checks<S: Suite>(ctx: &Ctx, pts: &[Pt<S::K>], lams: &[S::K], bound: usize, kernel: &[Pt<S::K>], expected_lens: [usize; 4]) {
     let name = S::NAME;
     let tables = S::lib_iso();
@@ -213,16 +250,21 @@ pub fn run(ctx: &Ctx) -> (&'static str, &'static str) {
         l2.push(Q2::new(vec![Q1::new(alpha::rand_below(&mut rng, q)), Q1::new(alpha::rand_below(&mut rng, q))]));
     }
     let p1 = iso_points::<RG1>(ctx, ctx.tier.pick(320, 2000), &|k| Q1::from_u64(k), &|r| Q1::new(alpha::rand_below(r, q)));
+    let hz1 = horner_zero_points::<RG1>(ctx, q, &|r| Q1::new(alpha::rand_below(r, q)));
+    ctx.require(!hz1.is_empty(), "G1: no point with a vanishing partial sum found (27 x-values exist)");
+    let p1: Vec<Pt<Q1>> = p1.iter().take(2).cloned().chain(hz1.into_iter()).chain(p1.iter().skip(2).cloned()).collect();
     let k1 = g1_kernel_points(ctx);
     ctx.extra("G1 rational kernel points found", json!(k1.len()));
     iso_checks::<RG1>(ctx, &p1, &l1, 306, &k1, [12, 11, 16, 16]);
     let p2 = iso_points::<RG2>(ctx, ctx.tier.pick(80, 1000), &|k| q2u(k, 1), &|r| Q2::new(vec![Q1::new(alpha::rand_below(r, q)), Q1::new(alpha::rand_below(r, q))]));
+    let hz2 = horner_zero_points::<RG2>(ctx, &(q * q), &|r| Q2::new(vec![Q1::new(alpha::rand_below(r, q)), Q1::new(alpha::rand_below(r, q))]));
+    let p2: Vec<Pt<Q2>> = p2.iter().take(2).cloned().chain(hz2.into_iter()).chain(p2.iter().skip(2).cloned()).collect();
     ctx.note("G2: #E2'(Fq2) = h2*r is not divisible by 3, so the 3-isogeny has no rational kernel points; only identity encodings are checked there");
     iso_checks::<RG2>(ctx, &p2, &l2, 66, &[], [4, 3, 4, 4]);
     ctx.assume("degree bound: Y^2 - X^3 - b Z^6 composed with the table-defined map has pole order <= 306 (G1) / 66 (G2) at infinity on E'; vanishing on more distinct points proves the image lies on E for every point, and a morphism fixing O is a homomorphism");
     ctx.assume("that the coefficient values are RFC appendix E's rather than another isogeny of the same degree between the same curves rests on the RFC Appendix J vectors (checked in C06/C14) and the repository's own pinned vectors");
     (
         "exploration",
-        "distinct affine points of the isogenous curves found by the reference model (x counted upward and seeded; more than the pole-order bound 306 / 66), each under 5-12 Jacobian scalings: image on the target curve, equal to the affine evaluation of the rational maps with the library's coefficient tables on big integers, representation-independent; identity encodings (X,Y,0) and the rational kernel points of the 11-isogeny (found as order-11 points whose x is a root of the x-denominator) map to the identity; homomorphism law on all pairs of a 16-32 point sub-alphabet including P=Q, P=-Q, kernel points and the identity, with the sum computed on the isogenous curve (a != 0) by the reference law",
+        "distinct affine points of the isogenous curves found by the reference model (x counted upward and seeded; more than the pole-order bound 306 / 66; plus every rational point over a root of a proper leading truncation of a coefficient table, i.e. every input at which a partial sum of the Horner evaluation vanishes), each under 5-12 Jacobian scalings: image on the target curve, equal to the affine evaluation of the rational maps with the library's coefficient tables on big integers, representation-independent; identity encodings (X,Y,0) and the rational kernel points of the 11-isogeny (found as order-11 points whose x is a root of the x-denominator) map to the identity; homomorphism law on all pairs of a 16-32 point sub-alphabet including P=Q, P=-Q, kernel points and the identity, with the sum computed on the isogenous curve (a != 0) by the reference law",
     )
 }
